@@ -155,7 +155,7 @@ def _env(variant, extra):
     return e
 
 
-def execute(ctxd, cwd, c, variant):
+def execute(ctxd, cwd, c, variant, _retry=False):
     """run one concrete case -> (rc, signal name or None, stdout, stderr, hang flag)"""
     if variant.startswith("asan") or variant.startswith("relaxed"):
         cmd = [os.path.join(ctxd["bdir_asan"], c["bin"])]
@@ -172,12 +172,15 @@ def execute(ctxd, cwd, c, variant):
         return (-1000, None, b"", ("spawn failed: %s" % e).encode(), False)
     try:
         out, err = p.communicate(sin.encode("utf-8", "surrogateescape") if sin is not None else None,
-                                 timeout=TIMEOUT * (6 if variant == "valgrind" else 1))
+                                 timeout=TIMEOUT * (6 if variant == "valgrind" else 1) * (3 if _retry else 1))
         hang = False
     except subprocess.TimeoutExpired:
         p.kill()
         out, err = p.communicate()
         hang = True
+        if not _retry:
+            # a loaded machine must not produce a false alarm: only a second time-out with a tripled limit counts
+            return execute(ctxd, cwd, c, variant, _retry=True)
     rc = p.returncode
     sig = None
     if rc is not None and rc < 0 and not hang:
@@ -198,7 +201,7 @@ def execute(ctxd, cwd, c, variant):
 # report parsing
 _UB = re.compile(r"^(\S+?):(\d+):(\d+): runtime error: (.*)$", re.M)
 _AS = re.compile(r"ERROR: AddressSanitizer:? ([A-Za-z0-9_-]+)")
-_TERM = re.compile(r"terminate called after throwing an instance of '([^']+)'")
+_TERM = re.compile(r"terminate called after throwing an instance of '([^'\[]+)")
 _TERM2 = re.compile(r"terminate called (recursively|without an active exception)")
 _ASSERT = re.compile(r"Assertion [`'](.*?)' failed")
 _FR_SYM = re.compile(r"^\s*#(\d+) 0x[0-9a-f]+ in (.+?) (/[^\s:]+):(\d+)(?::\d+)?\s*$")
@@ -208,7 +211,7 @@ _VG = re.compile(r"^==\d+== (\S.*)$")
 
 def _slug(s, n=90):
     s = re.sub(r"0x[0-9a-fA-F]+", "H", s)
-    s = re.sub(r"-?\d+", "N", s)
+    s = re.sub(r"(?<![A-Za-z0-9_])-?\d+(?![A-Za-z_])", "N", s)
     s = re.sub(r"[^A-Za-z0-9_.:<>=!+&|-]+", "-", s).strip("-")
     return s[:n]
 
@@ -360,24 +363,53 @@ _STD = ("std::", "__gnu_cxx::", "__cxa", "__cxxabiv1", "__interceptor", "__sanit
         "operator delete", "_start", "__libc")
 
 
-def top_frame(frames, repo, bin_path):
-    """first in-tree frame of a symbolised stack block -> 'func@file'"""
+GENERIC_FILES = ("prevector.h", "span.h", "serialize.h", "streams.h", "tinyformat.h", "strencodings.h", "strencodings.cpp", "vector.h")
+GENERIC_DIRS = ("/support/", "/compat/")
+
+
+def _generic(path):
+    return os.path.basename(path) in GENERIC_FILES or any(d in path for d in GENERIC_DIRS)
+
+
+def _frames_in_tree(frames, repo, bin_path):
+    """[(func, file basename, generic?)] for the in-tree frames of a symbolised stack block, in order"""
+    out = []
     for ln in frames:
         m = _FR_SYM.match(ln)
         if m:
             if _in_tree(m.group(3), repo):
-                return "%s@%s" % (_strip_func(m.group(2)), os.path.basename(m.group(3)))
+                out.append((_strip_func(m.group(2)), os.path.basename(m.group(3)), _generic(m.group(3))))
             continue
         m = _FR_MOD.match(ln)
         if m and m.group(2) and os.path.basename(m.group(3)) == os.path.basename(bin_path):
-            fn = m.group(2)
             r = _addr2line_file(bin_path, m.group(4), repo)
             if r:
-                return "%s@%s" % r
-            core = _strip_func(fn)
-            if not core.startswith(_STD):
-                return "%s@?" % core
-    return "?@?"
+                out.append((r[0], r[1], _generic("/" + r[1])))
+            else:
+                core = _strip_func(m.group(2))
+                if not core.startswith(_STD):
+                    out.append((core, "?", False))
+    return out
+
+
+def top_frame(frames, repo, bin_path, recursion=False):
+    """'func@file' of the first in-tree frame; frames in the generic container / serialisation layer (GENERIC_FILES) are
+    passed over when a more specific in-tree frame follows.  For a stack overflow (recursion=True) the faulting frame is an
+    arbitrary member of the recursion cycle, so the alphabetically first of the most frequent in-tree functions is used."""
+    fr = _frames_in_tree(frames, repo, bin_path)
+    if not fr:
+        return "?@?"
+    if recursion:
+        cnt = {}
+        for (f, fl, g) in fr:
+            cnt[(f, fl)] = cnt.get((f, fl), 0) + 1
+        mx = max(cnt.values())
+        f, fl = sorted(k for k, v in cnt.items() if v >= max(1, mx - 1))[0]
+        return "%s@%s" % (f, fl)
+    for (f, fl, g) in fr:
+        if not g:
+            return "%s@%s" % (f, fl)
+    return "%s@%s" % (fr[0][0], fr[0][1])
 
 
 def make_key(tool, rc, sig, err_text, hang, variant, repo, bin_path, devkind=""):
@@ -392,7 +424,7 @@ def make_key(tool, rc, sig, err_text, hang, variant, repo, bin_path, devkind="")
             return None
         if rs[0] == "valgrind":
             what = rs[1]
-            w = what.lower()
+            w = what.lower().replace("-", " ")
             if "conditional jump" in w:
                 kind = "uninit-cond"
             elif "uninitialised value" in w:
@@ -430,7 +462,7 @@ def make_key(tool, rc, sig, err_text, hang, variant, repo, bin_path, devkind="")
     if ma:
         kind = ma.group(1)
         idx = next(i for i, ln in enumerate(lines) if "ERROR: AddressSanitizer" in ln)
-        frame = top_frame(first_stack_block(lines, idx), repo, bin_path)
+        frame = top_frame(first_stack_block(lines, idx), repo, bin_path, recursion=(kind == "stack-overflow"))
         if kind == "ABRT":
             mt = _TERM.search(t)
             mx = _ASSERT.search(t)
@@ -491,14 +523,16 @@ def work(item):
     out = []
     v = variant
     for _ in range(3):
+        t1 = time.time()
         rc, sig, so, se, hang = execute(W.ctx, W.cwd, c, v)
+        ms = int(1000 * (time.time() - t1))
         set_ = se.decode("utf-8", "replace")
         rs = raw_signature(c["tool"], rc, sig, set_, hang, v, c["bin"])
         if rs is None:
             dg = hashlib.md5(("%s|" % rc).encode() + so + b"|" + se).hexdigest()[:12]
         else:
             dg = "V" + hashlib.md5(repr(rs).encode()).hexdigest()[:11]
-        out.append((d, v, c["tool"], c["base"], c["kind"], ih, size, rc, rs, dg, _diag(rc, set_)))
+        out.append((d, v, c["tool"], c["base"], c["kind"], ih, size, rc, rs, dg, _diag(rc, set_), ms))
         if v == "asan" and _maskable(rs):
             v = "relaxed"
         elif v == "relaxed" and rs is not None and rs[0] == "ubsan" and "not-a-valid-value-for-type" in rs[2]:
@@ -705,7 +739,7 @@ def run(ctx):
             # phase 2: one symbolising re-run per distinct raw signature
             groups = {}
             for r in results:
-                (d, v, tool, base, kind, ih, size, rc, rs, dg, diag) = r
+                (d, v, tool, base, kind, ih, size, rc, rs, dg, diag) = r[:11]
                 if rs is None:
                     continue
                 g = groups.setdefault((tool, v, rs), [0, None, None])
@@ -744,7 +778,7 @@ def run(ctx):
     evaluations = len(results) + len(sym)
     inputs = {}
     for r in results:
-        (d, v, tool, base, kind, ih, size, rc, rs, dg, diag) = r
+        (d, v, tool, base, kind, ih, size, rc, rs, dg, diag) = r[:11]
         if v in ("asan", "relaxed") and ih not in inputs:
             inputs[ih] = (base, dg, d, v)
     nontrivial = 0
@@ -756,7 +790,7 @@ def run(ctx):
     per_tool, per_kind, per_variant, outcomes, rc_hist = {}, {}, {}, set(), {}
     n_viol_runs = 0
     for r in results:
-        (d, v, tool, base, kind, ih, size, rc, rs, dg, diag) = r
+        (d, v, tool, base, kind, ih, size, rc, rs, dg, diag) = r[:11]
         per_tool[tool] = per_tool.get(tool, 0) + 1
         per_variant[v] = per_variant.get(v, 0) + 1
         kk = kind.split(":")[0] if not kind.startswith("pair:") else "pair"
@@ -770,7 +804,7 @@ def run(ctx):
     samples = []
     seen = set()
     for r in results:
-        (d, v, tool, base, kind, ih, size, rc, rs, dg, diag) = r
+        (d, v, tool, base, kind, ih, size, rc, rs, dg, diag) = r[:11]
         kk = (tool, kind.split(":")[0])
         if kk in seen or len(samples) >= 14 or size > 400:
             continue
@@ -781,6 +815,7 @@ def run(ctx):
     for vv in violations[:6]:
         samples.append({"violation_key": vv["key"], "input": vv["what"][:300]})
     wall = time.time() - t0
+    slow = sorted(results, key=lambda r: -r[11])[:5]
     cov = {
         "evaluations": evaluations,
         "distinct_nontrivial": nontrivial,
@@ -807,6 +842,8 @@ def run(ctx):
         "distinct_violation_keys": len(violations),
         "wall_enumerate_s": round(t_enum, 1), "wall_main_s": round(t_main, 1), "wall_total_s": round(wall, 1),
         "cpus": ncpu,
+        "process_ms_total": sum(r[11] for r in results),
+        "slowest_processes": [{"ms": r[11], "tool": r[2], "base": r[3], "deviation": r[4], "variant": r[1]} for r in slow],
     }
     infra = None
     if any(r[7] == -1000 for r in results):
